@@ -471,3 +471,11 @@ for _p, _t in _W14.items():
 PROPS['C02'].setdefault('require', {}).update({'auto.status_equals_model': 100000, 'auto.with_failing_allocator': 50000})
 PROPS['C06'].setdefault('require', {}).update({'roundtrip.path.crypt-twice': 3000, 'roundtrip.path.decoded': 3000, 'roundtrip.path.decrypted-copy': 3000, 'roundtrip.path.encrypted-once': 3000})
 PROPS['C03'].setdefault('require', {}).update({'purity.created_at_an_out_of_range_clock': 500})
+PROPS['C14'].setdefault('require', {}).update({'small_stack.long_inputs': 100})
+_W15 = {
+ 'C01': ' An eighth of the created seeds are created while the clock is out of range, unset, broken or in milliseconds.',
+ 'C03': ' The purity section also creates at out-of-range and odd clocks.',
+ 'C14': ' The small-stack section also feeds strings of 70 KiB to 1.2 MiB (ASCII and non-ASCII heads; tails of words, blanks, combining marks, CR/LF, Hangul) on 96 KiB thread stacks: the stack a call needs must not grow with the length of its input.',
+}
+for _p, _t in _W15.items():
+    MANIFEST_TEXT[_p]['text'] = MANIFEST_TEXT[_p]['text'].rstrip() + _t
